@@ -8,6 +8,7 @@ EXTENDS Authz, TLC, Json
 CONSTANTS Depth,   \* 1 = small catalogues, 2 = richer catalogues
           AzSmall,  \* TRUE: the authorizer draws facts/rules/checks from the first catalogue entry only
           NB,       \* number of later blocks (1 or 2); with 2 the authority block and the authorizer are kept small
+          WithLimits, \* TRUE: every instance additionally ranges over the limit catalogue (smaller block-2 catalogue)
           Sample    \* 0 = every instance; N > 0 = 16 lanes of N randomly drawn instances each
 
 \* predicates: 0 = a/1, 1 = b/1, 2 = g/0; constants 0, 1; variable x = -1
@@ -40,29 +41,33 @@ PolLists == {<<>>} \cup {<<i>> : i \in 1..Len(PolCat)} \cup {<<i, j>> : i, j \in
 SelZ == IF AzSmall THEN [f : 0..1, r : 0..1, c : 0..1] ELSE Sel
 SelA == IF AzSmall THEN [f : 0..Len(FactCat), r : 0..Len(RuleCat), c : 0..1] ELSE Sel
 
-VARIABLES sa, sb, sb2, sz, pl, pad, phase, lane
-vars == <<sa, sb, sb2, sz, pl, pad, phase, lane>>
+VARIABLES sa, sb, sb2, sz, pl, pad, lim, phase, lane
+vars == <<sa, sb, sb2, sz, pl, pad, lim, phase, lane>>
+\* run limits given to the authorizer (0 = none); with NB = 3 ("limits" configuration) they are placed around what the small
+\* programs need (1-2 productive rounds, 2-4 facts)
+LimCat == << [mf |-> 1000000, mi |-> 1], [mf |-> 1000000, mi |-> 2], [mf |-> 3, mi |-> 1000000], [mf |-> 2, mi |-> 2] >>
+Lims == IF WithLimits THEN 1..Len(LimCat) ELSE {0}
 \* `pad` unrelated authorizer facts c(0..pad-1) vary the SIZE of the authority-level fact list, so that the real
 \* slice behind it is exercised both with and without spare capacity when block worlds are copied from it
 PadFacts == << <<3, 0>>, <<3, 1>>, <<3, 2>> >>
-Pads == IF NB = 2 THEN {0, 3} ELSE {0}
+Pads == IF NB = 2 /\ ~WithLimits THEN {0, 3} ELSE {0}
 None == [f |-> 0, r |-> 0, c |-> 0]
-Sel2 == IF NB = 2 THEN Sel ELSE {None}
+Sel2 == IF NB = 2 THEN (IF WithLimits THEN [f : 0..1, r : 0..1, c : 0..1] ELSE Sel) ELSE {None}
 SelA2 == [f : 0..Len(FactCat), r : {0}, c : {0}]
 SelZ2 == [f : 0..1, r : {0}, c : {0}]
 PolLists2 == {<<3>>, <<2, 3>>}
 Init == IF Sample = 0
         THEN /\ sa \in (IF NB = 2 THEN SelA2 ELSE SelA) /\ sb \in Sel /\ sb2 \in Sel2
              /\ sz \in (IF NB = 2 THEN SelZ2 ELSE SelZ) /\ pl \in (IF NB = 2 THEN PolLists2 ELSE PolLists)
-             /\ pad \in Pads /\ phase = 0 /\ lane = 0
+             /\ pad \in Pads /\ lim \in Lims /\ phase = 0 /\ lane = 0
         ELSE /\ lane \in 1..16 /\ phase = 1
              /\ sa = RandomElement(Sel) /\ sb = RandomElement(Sel) /\ sb2 = RandomElement(Sel2)
-             /\ sz = RandomElement(SelZ) /\ pl = RandomElement(PolLists) /\ pad = RandomElement(0..3)
+             /\ sz = RandomElement(SelZ) /\ pl = RandomElement(PolLists) /\ pad = RandomElement(0..3) /\ lim = 0
 Next == IF Sample = 0
-        THEN phase = 0 /\ phase' = 1 /\ UNCHANGED <<sa, sb, sb2, sz, pl, pad, lane>>
+        THEN phase = 0 /\ phase' = 1 /\ UNCHANGED <<sa, sb, sb2, sz, pl, pad, lim, lane>>
         ELSE /\ phase < Sample /\ phase' = phase + 1 /\ UNCHANGED lane
              /\ sa' = RandomElement(Sel) /\ sb' = RandomElement(Sel) /\ sb2' = RandomElement(Sel2)
-             /\ sz' = RandomElement(SelZ) /\ pl' = RandomElement(PolLists) /\ pad' = RandomElement(0..3)
+             /\ sz' = RandomElement(SelZ) /\ pl' = RandomElement(PolLists) /\ pad' = RandomElement(0..3) /\ lim' = 0
 Spec == Init /\ [][Next]_vars
 
 T  == [auth |-> BlockOf(sa), blocks |-> <<>>]
@@ -72,7 +77,9 @@ TB == AppendBlock(T, B)
 Full == IF NB = 2 THEN AppendBlock(TB, B2) ELSE TB
 \* the tokens obtained by successive attenuation: T, T+B, (T+B+B2)
 Prefixes == IF NB = 2 THEN <<T, TB, Full>> ELSE <<T, TB>>
-A  == LET z == BlockOf(sz) IN [f |-> z.f \o SubSeq(PadFacts, 1, pad), r |-> z.r, c |-> z.c, p |-> [i \in 1..Len(pl) |-> PolCat[pl[i]]]]
+A  == LET z == BlockOf(sz)
+          base == [f |-> z.f \o SubSeq(PadFacts, 1, pad), r |-> z.r, c |-> z.c, p |-> [i \in 1..Len(pl) |-> PolCat[pl[i]]]]
+      IN IF lim = 0 THEN base ELSE base @@ [lim |-> LimCat[lim]]
 
 Ready == phase >= 1
 NP == Len(Prefixes)
